@@ -177,6 +177,13 @@ func (n *GeneratorInterceptor) loop(rtcpWriter interceptor.RTCPWriter) {
 					continue
 				}
 
+				// forget the counters of packets that are no longer missing
+				for nackSeq := range n.nackCountLogs[ssrc] {
+					if !slices.Contains(missing, nackSeq) {
+						delete(n.nackCountLogs[ssrc], nackSeq)
+					}
+				}
+
 				var nack *rtcp.TransportLayerNack
 
 				count := 0
@@ -203,12 +210,6 @@ func (n *GeneratorInterceptor) loop(rtcpWriter interceptor.RTCPWriter) {
 						SenderSSRC: senderSSRC,
 						MediaSSRC:  ssrc,
 						Nacks:      rtcp.NackPairsFromSequenceNumbers(missing),
-					}
-				}
-
-				for nackSeq := range n.nackCountLogs[ssrc] {
-					if !slices.Contains(missing, nackSeq) {
-						delete(n.nackCountLogs[ssrc], nackSeq)
 					}
 				}
 
